@@ -168,4 +168,28 @@ def valParse (s : Str) : ValRes :=
       let v := signedVal tok
       if v < -2147483648 || v > 2147483647 then .raises else .int v
 
+/-! ### the ASCII fragment of Python `float(str)` syntax (READ / INPUT into SINGLE / DOUBLE) -/
+
+inductive FloatSyn where
+  | ok      -- a decimal numeral: float() succeeds (value external)
+  | bad     -- ValueError
+  | gray    -- inf / nan / underscores / non-ASCII: outside the modelled fragment
+  deriving Repr, DecidableEq
+
+def floatSyntax (s : Str) : FloatSyn :=
+  let t := strip s
+  if t.any isGrayChar then .gray else
+  let r := (splitSign t).2
+  let lw := r.map lower
+  if lw = "inf".toList || lw = "infinity".toList || lw = "nan".toList then .gray else
+  match scanMantissa r with
+  | none => .bad
+  | some (_, r2) =>
+    match r2 with
+    | [] => .ok
+    | c :: _ =>
+      if c = 'e' || c = 'E' then
+        if (scanExp r2).1.isEmpty then .bad else if (scanExp r2).2.isEmpty then .ok else .bad
+      else .bad
+
 end Qbee.NumFmt
